@@ -442,7 +442,7 @@ func RunEnvCase(seed int64, exe, workDir string) *HistResult {
 			procEnv[n] = "proc:" + val()
 		}
 	}
-	procEnv["PXV_A_TOKEN"] = "proc-only:" + val()      // process-only name that starts with a job-level name
+	procEnv["PXV_A_TOKEN"] = "proc-only:" + val()     // process-only name that starts with a job-level name
 	procEnv["TASK_NAME_EXTRA"] = "proc-only:" + val() // starts with the name the runner sets itself
 	for _, n := range names {
 		os.Unsetenv(n)
